@@ -1,4 +1,5 @@
 import Bardic.Driver.Obs
+import Bardic.Driver.StdlibRun
 /-!
 # `driver`: line protocol.  One JSON case per input line, one JSON answer per output line.
 -/
@@ -104,6 +105,7 @@ def handle (line : String) : String :=
   | .ok j =>
     match getStr j "kind" "play" with
     | "play" => (runPlay j).compress
+    | "stdlib" => (runStdlib j).compress
     | k => (jObj [("status", "unknown_kind"), ("kind", .str k)]).compress
 
 partial def loop (h : IO.FS.Stream) (out : IO.FS.Stream) : IO Unit := do
